@@ -69,6 +69,12 @@ func c03Handler(er *errs) mpx.Handler {
 		if !st.OK() {
 			return status.OK // channel opened and closed without a readable message
 		}
+		return c03HandleWithFirst(er, ctx, ch, first)
+	})
+}
+
+func c03HandleWithFirst(er *errs, ctx mpx.Context, ch mpx.Channel, first []byte) status.Status {
+	{
 		if len(first) < 16 {
 			er.addf("server: first message of a channel is %d bytes, cannot identify channel", len(first))
 			return status.OK
@@ -155,7 +161,7 @@ func c03Handler(er *errs) mpx.Handler {
 		}
 		wg.Wait()
 		return status.OK
-	})
+	}
 }
 
 func runC03Client(conn mpx.Conn, sc *chanScript, er *errs) {
